@@ -358,6 +358,8 @@ class Engine:
             return out
         if k == 'cmp' and e[1] == 'is' and e[3] == ('const', None) and (self.w.bit(e[2]) or self.w.is_signal(e[2])):
             return F                    # a declared signal is never None
+        if k == 'cmp' and e[1] == '<' and self.w.bit(e[2]) and self.w.bit(e[3]):
+            return f_and(f_not(self._b(e[2])), self._b(e[3]))       # unsigned one-bit operands: a < b  is  ~a & b
         if k == 'cmp' and e[1] in ('==', '!='):
             # (a - b) == 0 between two one-bit operands -> xnor
             lhs, rhs = e[2], e[3]
